@@ -25,7 +25,7 @@ RULE = ('One case = a generated chart (sends with and without delay, notify) + i
         'contained all 7 documented kinds and a notify.')
 ASSUMPTIONS = ["the undocumented, deprecated 'delayed event sent' meta-event is filtered out before comparison",
                'the listener is attached before the property statechart so that it records meta-event k before the property fails']
-REQUIRED_COUNTERS = ['cases_with_ticking_clock', 'monitored_copies_checked', 'sent_predicate_reads', 'deprecated_bind_form', 'stream_steps_checked', 'meta_events_checked', 'failfast_runs', 'noninterference_steps',
+REQUIRED_COUNTERS = ['listeners_attached_mid_step', 'attribute_reads_checked', 'cases_with_ticking_clock', 'monitored_copies_checked', 'sent_predicate_reads', 'deprecated_bind_form', 'stream_steps_checked', 'meta_events_checked', 'failfast_runs', 'noninterference_steps',
                      'streams_with_all_kinds_and_notify', 'property_time_checks', 'kind_event sent', 'kind_notify',
                      'delayed_sends_seen']
 KINDS = ['step started', 'step ended', 'event consumed', 'event sent', 'state exited', 'state entered', 'transition processed']
@@ -127,7 +127,22 @@ def run_case(acc, rnd, tier, case):
     if ticking:
         acc.count('cases_with_ticking_clock')
 
+    attr_problems = []
+
+    def read_attributes(m, who):
+        # "with the documented attributes": every attribute is reachable as event.<name>, whatever its value (None included)
+        for kk, vv in m.data.items():
+            try:
+                got = getattr(m, kk)
+            except AttributeError as e:
+                attr_problems.append((who, m.name, kk, repr(vv), 'AttributeError: %s' % e))
+                continue
+            if got is not vv:
+                attr_problems.append((who, m.name, kk, repr(vv), repr(got)))
+    it.attach(lambda m: read_attributes(m, 'listener'))
+
     def R(event, time):
+        read_attributes(event, 'property statechart')
         rec.append((event.name, freeze(event.data), time))
     if rnd.random() < 0.25:
         # deprecated but supported form: an Interpreter instance is given; it must be synchronised all the same
@@ -162,6 +177,12 @@ def run_case(acc, rnd, tier, case):
             meta_per_step.append(len([e for e in norm_log(pr.log) if e[0] == 'M']))
             break
         step = r.last_step
+        if attr_problems:
+            who, mname, kk, vv, got = attr_problems[0]
+            acc.violation('C10:documented-attribute-unreadable', "step %d: attribute %r of meta-event '%s' (value %s) read by a %s as "
+                          'event.%s gives %s' % (k, kk, mname, vv, who, kk, got), dict(wit, step=k))
+            return
+        acc.count('attribute_reads_checked')
         if step is not None and step.time != t0:
             acc.violation('C10:step-time', 'step %d: MacroStep.time is %r, the step was executed at %r' % (k, step.time, t0), dict(wit, step=k))
             return
@@ -327,4 +348,50 @@ def run_case(acc, rnd, tier, case):
                           'statechart went on: log tail %r (meta-events seen %d)' % (kth, [x[:2] for x in tail[-4:]], nm), w)
             return
         acc.nontrivial((dg, kth), cls='failfast')
+    # ---- (4) a listener / property statechart attached while a step is under way ------------------------------------
+    # it is attached from then on: it receives every meta-event that happens afterwards, those of the same step included
+    if M >= 2:
+        target = rnd.randint(1, M - 1)
+        as_property = rnd.random() < 0.5
+        sc4, tmap4 = build.build_api(ch, coder=CODER10)
+        pr4 = Probes(val=make_val(valseed, p_true))
+        it4 = Interpreter(sc4, initial_context=pr4.context(), clock=ticking_clock() if ticking else None)
+        seen, late = [], []
+
+        def R4(event, time):
+            late.append((event.name, freeze(event.data)))
+
+        def watcher(m):
+            if m.name == 'delayed event sent':
+                return
+            seen.append((m.name, freeze(m.data)))
+            if len(seen) == target:
+                if as_property:
+                    it4.bind_property_statechart(recording_property(names),
+                                                 interpreter_klass=lambda s, clock: Interpreter(s, clock=clock, initial_context={'R': R4}))
+                else:
+                    it4.attach(lambda m2: late.append((m2.name, freeze(m2.data))) if m2.name != 'delayed event sent' else None)
+        it4.attach(watcher)
+        r4 = Runner(it4, tmap4, log=None)
+        k4 = 0
+        for op in script:
+            if op[0] == 'step':
+                pr4.stepno = k4
+                k4 += 1
+                if k4 > len(meta_per_step):
+                    break
+            o = r4.apply(op)
+            if op[0] == 'step' and o[0] == 'raise':
+                break
+        if len(seen) >= target:
+            acc.count('listeners_attached_mid_step')
+            want = seen[target:]
+            got4 = [e for e in late if e[0] != 'delayed event sent']
+            if got4 != want:
+                i = next((j for j, (a, b) in enumerate(zip(got4, want)) if a != b), min(len(got4), len(want)))
+                acc.violation('C10:attached-mid-step-misses-events', 'a %s attached while meta-event %d was being delivered received %d of '
+                              'the %d meta-events that happened afterwards; first difference at %d: got %r, happened %r'
+                              % ('property statechart' if as_property else 'listener', target, len(got4), len(want), i,
+                                 got4[i:i + 2], want[i:i + 2]), dict(wit, target=target, as_property=as_property))
+                return
     acc.sample(dict(states=len(ch['states']), steps=k, meta_events=M, ks=ks[:12], kinds=sorted(kinds_seen)))
